@@ -19,12 +19,12 @@ VARIABLES l, st
 
 NoPrev == [ok |-> FALSE, pairs |-> {}]
 \* what the YAML file said about BEPs, remembered while the CTI file of the same model is read
-PrevOf(e) == IF e.fmt = "yaml" THEN NoPrev
+PrevOf(e) == IF e.fmt = "yaml" \/ st.tid # e.tid THEN NoPrev         \* only within one model (trace id)
              ELSE IF st.fmt = "yaml" THEN [ok |-> st.ok, pairs |-> {<<st.bk[i], st.bid[i]>> : i \in 1..Len(st.bk)}]
              ELSE st.prev
-Fresh(e) == [fmt |-> e.fmt, ok |-> e.raised = "" /\ e.loaded, exp |-> e.exp, prev |-> PrevOf(e),
+Fresh(e) == [tid |-> e.tid, fmt |-> e.fmt, ok |-> e.raised = "" /\ e.loaded, exp |-> e.exp, prev |-> PrevOf(e),
              rid |-> <<>>, iid |-> <<>>, bid |-> <<>>, bk |-> <<>>, sp |-> <<>>, ph |-> <<>>]
-Idle == [fmt |-> "", ok |-> FALSE, exp |-> <<>>, prev |-> NoPrev, rid |-> <<>>, iid |-> <<>>, bid |-> <<>>,
+Idle == [tid |-> -1, fmt |-> "", ok |-> FALSE, exp |-> <<>>, prev |-> NoPrev, rid |-> <<>>, iid |-> <<>>, bid |-> <<>>,
          bk |-> <<>>, sp |-> <<>>, ph |-> <<>>]
 
 Clauses(e) ==
